@@ -43,8 +43,10 @@ TIE = {
     'order': 60,
     'gen_dir': 'MalVerif/Py/GenNeo4j',
     'gen_modules': MODULE_ORDER,
-    'chain': ['MalVerif.Py.AbsNeo4j', 'MalVerif.Py.TieNeo4jModel', 'MalVerif.PropsGen.C19'],
-    'needs': {'C19': ['MalVerif.Py.TieNeo4jModel', 'MalVerif.PropsGen.C19']},
+    'chain': ['MalVerif.Py.AbsNeo4j', 'MalVerif.Py.TieNeo4jModel', 'MalVerif.Py.TieNeo4jGraph',
+              'MalVerif.Py.TieNeo4jGet', 'MalVerif.PropsGen.C19'],
+    'needs': {'C19': ['MalVerif.Py.TieNeo4jModel', 'MalVerif.Py.TieNeo4jGraph', 'MalVerif.Py.TieNeo4jGet',
+                      'MalVerif.PropsGen.C19']},
     'sources': {'C19': 'ingestors/neo4j.py: ingest_model, ingest_attack_graph, get_model (py2neo Graph / Node / '
                        'Relationship / Subgraph / transactions / the two Cypher queries are the recording database of '
                        'PreludeNeo4j.lean; lang_graph.get_association_by_fields_and_assets, lang_classes_factory.'
